@@ -393,6 +393,9 @@ class Run:
                 pass
         self.trace.append([i, kind, a1, a2, out if isinstance(out, (str, int, type(None))) else str(out)[:40]])
         self.adopt()
+        # canonical state vector (part of the run digest: labels, states and membership must not depend on addresses or set order)
+        self.trace[-1].append(" ".join("%d%s%s%s" % (e["label"], e["cls"], OS.state_of(e["obj"])[:3], "" if self.in_session(e["obj"]) else "-")
+                                       for e in self.entries()))
         if kind not in ("flush", "commit", "rollback", "begin_nested", "sp_commit", "sp_rollback", "close") and \
                 not (isinstance(out, str) and out.endswith("Error")) and \
                 any(st.lstrip().split(" ", 1)[0] in ("INSERT", "UPDATE", "DELETE") for st, _p in self.sql):
@@ -679,6 +682,9 @@ class Run:
         for t in self.trace:
             if t[0] > self.txn_start["op"] and t[1] == "mk" and isinstance(t[4], str) and t[4] in self.U["classes"] and t[4] not in created:
                 created.append(t[4])
+        # (statement order across mappers inside one flush follows set iteration in the unit of work: canonical order here)
+        pts.sort()
+        lpts.sort()
         self.derive_info = {"points": pts, "lpoints": lpts, "created": created, "final": self.tables_json(self.probe(committed=True))}
 
     # ------------------------------------------------------------------ operations
